@@ -284,3 +284,72 @@ _base_scn_r = scenarios
 
 def scenarios():
     return _base_scn_r() + [armor_reader_tail(True), armor_reader_tail(False)]
+
+
+def signature_parse_kind():
+    """PGPSignature.parse: an armored block of another kind is refused; one signature packet is taken; the armor headers are kept"""
+    label = 'C10/PGPSignature.parse[kind check]'
+    SIG = 'pgpy.pgp.PGPSignature'
+
+    def gen(repo):
+        r = scn.Run(repo, SIG, 'parse', label)
+        ex, st = r.ex, r.st
+        B = E.BYTES
+        MAGIC, BODY = z3.Const('BLOCK_LABEL', B), z3.Const('BODY', B)
+        armored, has_headers = z3.Bool('input_is_armored'), z3.Bool('has_headers')
+        HDRS = E.VObj('collections.OrderedDict', 'headers')
+
+        def unarmor(ex, st, o, a):
+            outs = []
+            for arm in (True, False):
+                for hh in ((True, False) if arm else (False,)):
+                    s2 = st.clone()
+                    s2.pc += [armored == arm, has_headers == hh]
+                    d = E.VDict([(E.VStr(s='magic'), E.VStr(z=MAGIC) if arm else E.VNone()), (E.VStr(s='headers'), HDRS if hh else E.VNone()),
+                                 (E.VStr(s='body'), ex.new_buf(s2, BODY)), (E.VStr(s='crc'), E.VNone())])
+                    outs.append((s2, d))
+            return outs
+        r.hook(ARM, 'ascii_unarmor', scn.method_hook(unarmor))
+        is_sig_tag, opaque = z3.Bool('first_packet_has_tag_2'), z3.Bool('unknown_version')
+        PT = repo.enum_members('pgpy.constants.PacketTag')
+
+        def packet(ex, st, c, a):
+            st.ghost['packet_arg'] = a[0]
+            outs = []
+            for tag2 in (True, False):
+                for opq in ((True, False) if tag2 else (False,)):
+                    s2 = st.clone()
+                    s2.pc += [is_sig_tag == tag2, opaque == opq]
+                    cls = 'pgpy.packet.types.Opaque' if opq else ('pgpy.packet.packets.SignatureV4' if tag2 else 'pgpy.packet.packets.LiteralData')
+                    p = E.VObj(cls, 'pkt')
+                    s2.heap[('pkt', 'header')] = E.VObj('pgpy.packet.types.Header', 'hdr')
+                    s2.heap[('hdr', '_tag')] = E.VInt(PT['Signature'] if tag2 else PT['LiteralData'], enum='pgpy.constants.PacketTag')
+                    outs.append((s2, p))
+            return outs
+        r.hook('pgpy.packet.types.Packet', '__call__', packet)
+        r.set('sig', '_signature', E.VNone())
+        r.set('sig', 'ascii_headers', E.VDict([]))
+        is_label = MAGIC == ex.strseq(E.VStr(s='SIGNATURE'))
+        for pi, (s, v) in enumerate(r.call(E.VObj(SIG, 'sig'), [E.VBytes(z3.Const('INPUT', B))])):
+            if isinstance(v, E.Raise):
+                r.oblige(s, 'refused-only-as-ValueError,for-a-block-of-another-kind-or-a-first-packet-that-is-no-signature/p%d' % pi,
+                         z3.And(z3.BoolVal(v.exc.split(':')[0] == 'ValueError'), z3.Or(z3.And(armored, z3.Not(is_label)), z3.Not(is_sig_tag))), v.where)
+                r.oblige(s, 'nothing-installed-on-refusal/p%d' % pi, z3.BoolVal(isinstance(s.heap.get(('sig', '_signature')), E.VNone)))
+                continue
+            r.oblige(s, 'accepted=>binary-input-or-label-SIGNATURE,and-a-signature-packet/p%d' % pi, z3.And(z3.Or(z3.Not(armored), is_label), is_sig_tag))
+            got = s.heap.get(('sig', '_signature'))
+            r.oblige(s, 'the-packet-is-installed-unless-its-version-is-unknown/p%d' % pi,
+                     z3.If(opaque, z3.BoolVal(isinstance(got, E.VNone)), z3.BoolVal(isinstance(got, E.VObj) and got.ref == 'pkt')))
+            pa = s.ghost.get('packet_arg')
+            r.oblige(s, 'the-packet-is-read-from-the-de-armored-body/p%d' % pi, ex.seq(pa, s) == BODY if pa is not None else z3.BoolVal(False))
+            r.oblige(s, 'armor-headers-kept-when-present/p%d' % pi,
+                     z3.Implies(has_headers, z3.BoolVal(s.heap.get(('sig', 'ascii_headers')) is HDRS)))
+        return r.result()
+    return Scenario(label, SIG + '.parse', gen, props=('C10', 'C08'))
+
+
+_base_scn_sp = scenarios
+
+
+def scenarios():
+    return _base_scn_sp() + [signature_parse_kind()]
